@@ -917,3 +917,7 @@ mod test {
         assert!(set.contains(&25454u32.into()));
     }
 }
+
+#[cfg(kani)]
+#[path = "/verif/kani/set.rs"]
+mod verif_kani;
